@@ -611,7 +611,17 @@ impl Allocator {
                     ));
                 }
                 self.ghost_heap -= len;
-                Ok(MaybeRestore::Replace(self.new_atom(&saved_bytes[..len])?))
+                // re-create the atom as a heap atom, like the one it replaces.
+                // new_atom() could turn it into an inline small atom, which
+                // later operations (e.g. new_substr) account for differently
+                let start = self.u8_vec.len() as u32;
+                self.u8_vec.extend_from_slice(&saved_bytes[..len]);
+                let end = self.u8_vec.len() as u32;
+                let idx = self.atom_vec.len();
+                self.atom_vec.push(AtomBuf { start, end });
+                #[cfg(feature = "counters")]
+                self.update_max_counts();
+                Ok(MaybeRestore::Replace(self.mk_node(ObjectType::Bytes, idx)))
             }
         }
     }
